@@ -946,6 +946,8 @@ struct ControlSink {
     cur: Vec<u8>,
     controls: Vec<String>,
     payload_bytes: u64,
+    /// payload bytes of commands whose terminator has been seen
+    closed_payload_bytes: u64,
 }
 
 impl std::io::Write for ControlSink {
@@ -978,7 +980,10 @@ impl std::io::Write for ControlSink {
                     self.payload_bytes += 1;
                     4
                 }
-                (5, _) => 0,
+                (5, _) => {
+                    self.closed_payload_bytes = self.payload_bytes;
+                    0
+                }
                 _ => 0,
             };
         }
@@ -987,6 +992,63 @@ impl std::io::Write for ControlSink {
     fn flush(&mut self) -> std::io::Result<()> {
         Ok(())
     }
+}
+
+/// A first draw whose sink fails after `k` bytes (the transmission did not complete), then the same image drawn
+/// again into a working sink: the placement of the second draw must refer to a transmitted image, so the second
+/// draw has to carry the complete pixel data.
+fn failed_draw_check(image: &Image, h: usize, w: usize) -> Option<Finding> {
+    /// accepts `.0` bytes in total (recording what it accepted), then fails
+    struct FailAfter(usize, ControlSink);
+    impl std::io::Write for FailAfter {
+        fn write(&mut self, buf: &[u8]) -> std::io::Result<usize> {
+            if self.0 == 0 {
+                return Err(std::io::Error::new(std::io::ErrorKind::WouldBlock, "sink is full"));
+            }
+            let n = buf.len().min(self.0);
+            self.0 -= n;
+            let _ = std::io::Write::write(&mut self.1, &buf[..n]);
+            Ok(n)
+        }
+        fn flush(&mut self) -> std::io::Result<()> {
+            Ok(())
+        }
+    }
+    if h * w == 0 {
+        return None;
+    }
+    let expected_payload = ((h * w * 4).div_ceil(3) * 4) as u64;
+    for k in [0usize, 1, 20, 60, 4300] {
+        let mut handler = KittyImageHandler::new();
+        let mut failing = FailAfter(k, ControlSink::default());
+        let first = catch(|| handler.draw(&mut failing, image, Position::new(1, 2)).is_ok());
+        match first {
+            Err(p) => return Some(Finding { key: format!("failed-draw:{}", p.key()), what: format!("draw into a sink that fails after {k} bytes panicked: {}", p.message) }),
+            Ok(true) => continue, // everything fitted: not a failed draw
+            Ok(false) => {}
+        }
+        // the whole pixel data (and the end of its last command) got through before the sink failed: the image IS transmitted
+        if failing.1.closed_payload_bytes == expected_payload {
+            continue;
+        }
+        let mut sink = ControlSink::default();
+        match catch(|| handler.draw(&mut sink, image, Position::new(1, 2)).is_ok()) {
+            Err(p) => return Some(Finding { key: format!("failed-draw:{}", p.key()), what: format!("draw after a failed draw panicked: {}", p.message) }),
+            Ok(false) => return Some(Finding { key: "failed-draw:second-draw-error".into(), what: format!("draw into a working sink failed after an earlier draw had failed after {k} bytes") }),
+            Ok(true) => {}
+        }
+        let puts = sink.controls.iter().filter(|c| c.split(',').any(|kv| kv == "a=p")).count();
+        if puts > 0 && sink.payload_bytes != expected_payload {
+            return Some(Finding {
+                key: "failed-draw:placement-without-transmission".into(),
+                what: format!(
+                    "the first draw of a {h}x{w} image failed in the sink after {k} bytes (the image was never completely transmitted); the next draw on the same handler placed it with {} of {expected_payload} payload bytes transmitted",
+                    sink.payload_bytes
+                ),
+            });
+        }
+    }
+    None
 }
 
 /// Volume: `count` distinct opaque images of `side` x `side` pixels are drawn on one handler, then all of them
@@ -1060,6 +1122,9 @@ fn payload_case(h: usize, w: usize, px: Vec<[u8; 4]>) -> (Env, Vec<(usize, Findi
         sig = hash64(&(sig, world.last_sig));
     }
     if let Some(f) = sink_check(&env.imgs[0].image) {
+        out.push((MINI.len(), f));
+    }
+    if let Some(f) = failed_draw_check(&env.imgs[0].image, env.imgs[0].h, env.imgs[0].w) {
         out.push((MINI.len(), f));
     }
     (env, out, sig)
@@ -1303,6 +1368,10 @@ pub fn replay(w: &Value) -> Result<(bool, String), String> {
                 show(&world, &env, n, op, &f, &mut text);
             }
             if let Some(f) = sink_check(&env.imgs[0].image) {
+                bad = true;
+                text.push_str(&format!("  VIOLATION [{}]: {}\n", f.key, f.what));
+            }
+            if let Some(f) = failed_draw_check(&env.imgs[0].image, env.imgs[0].h, env.imgs[0].w) {
                 bad = true;
                 text.push_str(&format!("  VIOLATION [{}]: {}\n", f.key, f.what));
             }
